@@ -113,7 +113,7 @@ def run_writer(repo, interp, item, g, method, newvalue, units="C"):
         "status_block": OldBlock(),
         "set_value": Native(cap),
         "async_set_value": Native(cap),
-        "accessors": {"TempUnits": Obj(None, {"value": units})},
+        "accessors": {"TempUnits": Obj(None, {"value": units, "watch": Native(lambda a, k: None), "unwatch": Native(lambda a, k: None)})},
     }, name="struct")
     acc = build_accessor(repo, interp, item, struct_obj)
     fi = repo.method(item.ctor, method)
@@ -210,6 +210,75 @@ def readback(repo, interp, item, g, acc, pos, length, W, nbits_new):
     return True, ""
 
 
+def shape_obligations(repo, interp, it, g, k):
+    """All C02 obligations of one geometry shape -> list of (rule, key, ok, message, where, sample)"""
+    out = []
+
+    def ob(rule, key, ok, msg, where, sample=None):
+        out.append((rule, key, bool(ok), msg, where, sample))
+        return bool(ok)
+
+    sk = f"{g['cls']}/{g['type']}/len{g['length']}/bit{g['bitpos']}/mask{g['bitmask']}/{'rw' if k[6] else 'ro'}"
+    where = f"{it.module.path}:{it.lineno} (e.g. {it.module.stem}::{it.key})"
+    newv, nbits = new_value_for(g)
+    results = {}
+    for wname, method, _deleg in WRITERS:
+        units_list = ("C", "F") if g["cls"] == "GeckoTempStructAccessor" else ("C",)
+        for units in units_list:
+            try:
+                res = run_writer(repo, interp, it, g, method, newv, units)
+            except Undecided as e:
+                raise AnalysisError(f"{sk} {method}: cannot interpret the writer: {e}")
+            results[(wname, units)] = res
+            key = f"{sk}::{wname}" + (f"::{units}" if len(units_list) > 1 else "")
+            if not k[6]:
+                ob("R4", key + "::refuses", res[0] == "raise", f"{method} on a read-only item ({where}) does not refuse the write ({res[:2]})", where)
+                continue
+            if res[0] != "write":
+                ob("R1", key + "::writes-once", False, f"{method} on shape {sk}: {res[:2]} ({where})", where)
+                continue
+            _, pos, length, W, acc = res
+            ob("R1", key + "::O4-address", (pos, length) == (it.pos, g["length"]),
+               f"{method} writes (pos={pos}, len={length}) for an item at pos={it.pos} len={g['length']} ({where})", where)
+            for name, ok, msg in check_word(g, pos, length, W, nbits or 0):
+                ob("R1", f"{key}::{name}", ok, f"{method}, shape {sk}: {msg} ({where})", where,
+                   {"rule": "R1", "shape": sk, "writer": method, "obligation": name,
+                    "word_bits_lsb_first": W.describe(8 * length) if isinstance(W, BV) else repr(W)} if name == "O1-isolation" and wname == "sync" else None)
+            if isinstance(W, BV) and nbits:
+                try:
+                    ok, msg = readback(repo, interp, it, g, acc, pos, length, W, nbits)
+                except PyRaise as e:
+                    ok, msg = False, f"read-back raises {e.what}"
+                except Undecided as e:
+                    raise AnalysisError(f"{sk}: cannot interpret the reader: {e}")
+                ob("R2", key + "::read-back", ok, f"shape {sk}: after {method}, {msg} ({where})", where)
+    for units in ("C", "F"):
+        a, b = results.get(("sync", units)), results.get(("async", units))
+        if a is None or b is None:
+            continue
+        same = a[0] == b[0]
+        if same and a[0] == "write":
+            same = a[1:3] == b[1:3] and _same_word(a[3], b[3])
+        ob("R5", f"{sk}::agree" + (f"::{units}" if g["cls"] == "GeckoTempStructAccessor" else ""), same,
+           f"shape {sk}: blocking and awaitable writers emit different device writes ({_short(a)} vs {_short(b)}) ({where})", where)
+    if k[6] and g["type"] in ("Byte", "Word", "Bool") and g["cls"] != "GeckoTempStructAccessor":
+        forms = [("17", 17)] if g["type"] != "Bool" else [("true", 1), ("True", 1), ("false", 0)]
+        for text, val in forms:
+            for wname, method, _ in WRITERS:
+                try:
+                    res = run_writer(repo, interp, it, g, method, text)
+                except Undecided as e:
+                    res = ("undecided", str(e))
+                okf = res[0] == "write"
+                msg = str(res[:2])
+                if okf:
+                    for name, ok, m2 in check_word(g, res[1], res[2], res[3], 0, const_new=val):
+                        if not ok:
+                            okf, msg = False, m2
+                ob("R6", f"{sk}::{wname}::str-{text}", okf, f"{method}('{text}') on shape {sk}: {msg} ({where})", where)
+    return out
+
+
 def check(ctx):
     repo = Repo()
     T = tables(repo)
@@ -238,69 +307,9 @@ def check(ctx):
 
     proven = {}
     for k, (it, g) in sorted(shapes.items(), key=lambda kv: str(kv[0])):
-        sk = f"{g['cls']}/{g['type']}/len{g['length']}/bit{g['bitpos']}/mask{g['bitmask']}/{'rw' if k[6] else 'ro'}"
-        where = f"{it.module.path}:{it.lineno} (e.g. {it.module.stem}::{it.key})"
         ok_all = True
-        newv, nbits = new_value_for(g)
-        results = {}
-        for wname, method, _deleg in WRITERS:
-            units_list = ("C", "F") if g["cls"] == "GeckoTempStructAccessor" else ("C",)
-            for units in units_list:
-                try:
-                    res = run_writer(repo, interp, it, g, method, newv, units)
-                except Undecided as e:
-                    raise AnalysisError(f"{sk} {method}: cannot interpret the writer: {e}")
-                results[(wname, units)] = res
-                key = f"{sk}::{wname}" + (f"::{units}" if len(units_list) > 1 else "")
-                if not k[6]:
-                    ok = res[0] == "raise"
-                    ok_all &= ctx.ob("R4", key + "::refuses", ok,
-                                     f"{method} on a read-only item ({where}) does not refuse the write ({res[:2]})", where)
-                    continue
-                if res[0] != "write":
-                    ok_all &= ctx.ob("R1", key + "::writes-once", False, f"{method} on shape {sk}: {res[:2]} ({where})", where)
-                    continue
-                _, pos, length, W, acc = res
-                ok_all &= ctx.ob("R1", key + "::O4-address", (pos, length) == (it.pos, g["length"]),
-                                 f"{method} writes (pos={pos}, len={length}) for an item at pos={it.pos} len={g['length']} ({where})", where)
-                for name, ok, msg in check_word(g, pos, length, W, nbits or 0):
-                    ok_all &= ctx.ob("R1", f"{key}::{name}", ok, f"{method}, shape {sk}: {msg} ({where})", where,
-                                     sample={"rule": "R1", "shape": sk, "writer": method, "obligation": name,
-                                             "word_bits_lsb_first": W.describe(8 * length) if isinstance(W, BV) else repr(W)} if name == "O1-isolation" and wname == "sync" else None)
-                if isinstance(W, BV) and nbits:
-                    try:
-                        ok, msg = readback(repo, interp, it, g, acc, pos, length, W, nbits)
-                    except PyRaise as e:
-                        ok, msg = False, f"read-back raises {e.what}"
-                    except Undecided as e:
-                        raise AnalysisError(f"{sk}: cannot interpret the reader: {e}")
-                    ok_all &= ctx.ob("R2", key + "::read-back", ok, f"shape {sk}: after {method}, {msg} ({where})", where)
-        # R5 agreement
-        for units in ("C", "F"):
-            a, b = results.get(("sync", units)), results.get(("async", units))
-            if a is None or b is None:
-                continue
-            same = a[0] == b[0]
-            if same and a[0] == "write":
-                same = a[1:3] == b[1:3] and _same_word(a[3], b[3])
-            ok_all &= ctx.ob("R5", f"{sk}::agree" + (f"::{units}" if g["cls"] == "GeckoTempStructAccessor" else ""), same,
-                             f"shape {sk}: blocking and awaitable writers emit different device writes ({_short(a)} vs {_short(b)}) ({where})", where)
-        # R6 string forms
-        if k[6] and g["type"] in ("Byte", "Word", "Bool") and g["cls"] != "GeckoTempStructAccessor":
-            forms = [("17", 17)] if g["type"] != "Bool" else [("true", 1), ("True", 1), ("false", 0)]
-            for text, val in forms:
-                for wname, method, _ in WRITERS:
-                    try:
-                        res = run_writer(repo, interp, it, g, method, text)
-                    except Undecided as e:
-                        res = ("undecided", str(e))
-                    okf = res[0] == "write"
-                    msg = str(res[:2])
-                    if okf:
-                        for name, ok, m2 in check_word(g, res[1], res[2], res[3], 0, const_new=val):
-                            if not ok:
-                                okf, msg = False, m2
-                    ok_all &= ctx.ob("R6", f"{sk}::{wname}::str-{text}", okf, f"{method}('{text}') on shape {sk}: {msg} ({where})", where)
+        for rule, key, ok, msg, where, sample in shape_obligations(repo, interp, it, g, k):
+            ok_all &= ctx.ob(rule, key, ok, msg, where, sample=sample)
         proven[k] = ok_all
 
     # R7 all items
